@@ -24,12 +24,38 @@ class Done(Exception):
 
 
 _pub = None    # list of tags logged through public syntax (rt.note in default expressions, rt.lazy specifier values)
+_pubvals = None  # round 3: [tag, fingerprint of the value the expression saw/produced] in the same order
+
+
+def fp(v, depth=0):
+    """Structural fingerprint of a property value: exact for concrete values, 'dist' for anything random."""
+    try:
+        from scenic.core.distributions import needsSampling
+        from scenic.core.lazy_eval import needsLazyEvaluation
+        from scenic.core.vectors import Vector, Orientation
+        if v is None or isinstance(v, (bool, str)):
+            return repr(v)
+        if isinstance(v, (int, float)):
+            return repr(round(float(v), 9) + 0.0)
+        if isinstance(v, (tuple, list)) and not isinstance(v, Vector):
+            return "(" + ",".join(fp(x, depth + 1) for x in v) + ")" if depth < 3 else "(...)"
+        if needsSampling(v) or needsLazyEvaluation(v):
+            return "dist"
+        if isinstance(v, Vector):
+            return "V(" + ",".join(repr(round(float(x), 6) + 0.0) for x in v) + ")"
+        if isinstance(v, Orientation):
+            return "O(" + ",".join(repr(round(float(x), 6) + 0.0) for x in (v.yaw, v.pitch, v.roll)) + ")"
+        return "<" + type(v).__name__ + ">"
+    except Exception as e:  # noqa
+        return "<?" + type(e).__name__ + ">"
 
 
 def note(tag, value):
     """Called from the default-value expressions of the catalogue's user classes."""
     if _pub is not None:
         _pub.append(tag)
+        if _pubvals is not None:
+            _pubvals.append([tag, fp(value)])
     return value
 
 
@@ -40,6 +66,8 @@ def lazy(tag, value):
     def evaluate(context):
         if _pub is not None:
             _pub.append(tag)
+            if _pubvals is not None:
+                _pubvals.append([tag, fp(value)])
         return value
 
     return DelayedArgument(set(), evaluate)
@@ -208,7 +236,7 @@ def merge_cases(hiers):
 
 def run_case(cls, inst_ids):
     """Create one object from the given instances in the given order; return the observation."""
-    global _log, _pub
+    global _log, _pub, _pubvals
     import scenic.syntax.veneer as veneer
     from scenic.core.errors import SpecifierError
 
@@ -228,9 +256,11 @@ def run_case(cls, inst_ids):
     _last[0] = None
     obs = dict(table=table)
     _pub = []
+    _pubvals = []
     try:
         obj = veneer.new(cls, specs)
         obs.update(stage="ok", props=sorted(obj.properties))
+        obs["vals"] = {p: fp(getattr(obj, p, None)) for p in sorted(obj.properties) if not p.startswith("_")}
     except Exception as e:
         started = bool(_log["order"]) or bool(_pub)
         kind = None
@@ -244,8 +274,10 @@ def run_case(cls, inst_ids):
     obs["order"] = _log["order"]
     obs["assign"] = _log["assign"]
     obs["pub"] = _pub
+    obs["pubvals"] = _pubvals
     obs["hooks"] = HOOKS["order"] and HOOKS["assign"]
     _pub = None
+    _pubvals = None
     _log = None
     _labels.clear()
     return obs
